@@ -1979,8 +1979,9 @@ lydjson_envelope(struct lyjson_ctx *jsonctx, const char *name, const char *modul
         LOGVAL(jsonctx->ctx, LYVE_DATA, "Unexpected metadata.");
         rc = LY_EVALID;
         goto cleanup;
-    } else if (module && ly_strncmp(module, prefix, prefix_len)) {
-        LOGVAL(jsonctx->ctx, LYVE_DATA, "Unexpected module \"%.*s\" instead of \"%s\".", (int)prefix_len, prefix, module);
+    } else if (module && (!prefix || ly_strncmp(module, prefix, prefix_len))) {
+        LOGVAL(jsonctx->ctx, LYVE_DATA, "Unexpected module \"%.*s\" instead of \"%s\".", (int)prefix_len,
+                prefix ? prefix : "", module);
         rc = LY_EVALID;
         goto cleanup;
     } else if (ly_strncmp(name, nam, nam_len)) {
@@ -1991,6 +1992,12 @@ lydjson_envelope(struct lyjson_ctx *jsonctx, const char *name, const char *modul
 
     r = lyjson_ctx_next(jsonctx, &status);
     LY_CHECK_ERR_GOTO(r, rc = r, cleanup);
+    if (status != LYJSON_OBJECT) {
+        LOGVAL(jsonctx->ctx, LYVE_SYNTAX_JSON, "Expecting JSON %s but %s found.", lyjson_token2str(LYJSON_OBJECT),
+                lyjson_token2str(status));
+        rc = LY_EVALID;
+        goto cleanup;
+    }
 
     /* create node */
     rc = lyd_create_opaq(jsonctx->ctx, name, strlen(name), prefix, prefix_len, prefix, prefix_len, NULL, 0, NULL,
